@@ -52,8 +52,12 @@ func (s *sessionMetadatasState) mergeSessions(sessions []*api.SessionMetadatas) 
 	return nil
 }
 func (s *sessionMetadatasState) dump(event *api.StateBroadcastEvent) {
-	sessions := s.All()
-	for _, session := range sessions {
+	s.mu.Lock()
+	defer s.mu.Unlock()
+	// removed entries are part of the state too: a peer that missed the removal
+	// must learn about it from the snapshot
+	for id := range s.sessions {
+		session := s.sessions[id]
 		event.SessionMetadatas = append(event.SessionMetadatas, &session)
 	}
 }
